@@ -9,7 +9,7 @@ RULE = ("zone ids of the active provider (quick: 64 seeded ids + sentinels such 
         "thorough: all ids) x wall times {seeded random 1900-2100; for every offset transition in 1900-2100 (from pytz's table, quick: a sample per zone) the "
         "UTC instants T-1h, T-1s, T, T+1s, T+1h converted to wall time, and one wall time inside every gap and every fold} x provider {zoneinfo, pytz} x "
         "tzinfo source {zoneinfo, pytz.localize, dateutil gettz (wall time only)} x shape {DTSTART, DTEND, DUE, RECURRENCE-ID, RDATE/EXDATE lists, RDATE "
-        "period (explicit end / duration), FREEBUSY period}; plus DTSTAMP/CREATED/LAST-MODIFIED via add() and via the descriptors and ACKNOWLEDGED with "
+        "period (explicit end / duration), FREEBUSY period}; plus DTSTAMP/CREATED/LAST-MODIFIED/ACKNOWLEDGED via add() and via the descriptors, with "
         "zoned inputs. Oracles: the emitted line (R2) shows the wall fields and TZID == zone key (UTC: Z and no TZID); the parsed value has the same wall "
         "fields, zone key and the utcoffset the active provider itself assigns to that wall time (fold=0 / is_dst=False); UTC properties are written as "
         "the same instant with Z; non-trivial = wall time within 1 h of a transition, or inside a gap/fold; distinct by case hash")
@@ -278,7 +278,9 @@ def check_utc_props(ctx, prov, dt, w):
     ev2.LAST_MODIFIED = dt
     al = Alarm()
     al.ACKNOWLEDGED = dt
-    for comp, names in ((ev, ("DTSTAMP", "CREATED", "LAST-MODIFIED")), (ev2, ("DTSTAMP", "LAST-MODIFIED")), (al, ("ACKNOWLEDGED",))):
+    al2 = Alarm()
+    al2.add("acknowledged", dt)
+    for comp, names in ((ev, ("DTSTAMP", "CREATED", "LAST-MODIFIED")), (ev2, ("DTSTAMP", "LAST-MODIFIED")), (al, ("ACKNOWLEDGED",)), (al2, ("ACKNOWLEDGED",))):
         data = comp.to_ical()
         for n in names:
             ls = lines_named(data, n)
